@@ -141,7 +141,7 @@ def _format_number_contract():
             from decimal import Decimal
             if k == 2:
                 return f.result == f.a.value
-            return bool(re.match(r"^-?[0-9]+(\\.[0-9]+)?$", f.result)) and Fraction(Decimal(f.result)) == Fraction(Decimal(repr(f.a.value)))
+            return bool(re.match(r"^-?[0-9]+(\.[0-9]+)?$", f.result)) and Fraction(Decimal(f.result)) == Fraction(Decimal(repr(f.a.value)))
         import z3
         from pyvc.pynum import PLAIN, DecVal
         from pyvc.stubs import sstr_to_z3
